@@ -111,4 +111,23 @@ Proof.
     cbn in Hd'. discriminate.
 Qed.
 
+(* a DATA frame that does not end the stream loop is for a stream id the connection has seen *)
+Lemma data_step_bound idp c fr :
+  sf_kind fr = KData -> sf_sid fr <> 0 -> HInv idp c ->
+  sc_sl_done (fst (sl_frame dec_field enc_set_max cfg c fr)) = false -> sf_sid fr <= sc_highestID c.
+Proof.
+  intros K NZ H Hd'. pose proof H as [ND FP IDS LAST DISC RING].
+  unfold sl_frame in *. replace (sf_sid fr =? 0) with false in * by lia. rewrite K in *. cbn [fkind_eqb andb] in *. cbv zeta in *.
+  destruct (if sf_sid fr <=? sc_lastID c then strms_search (sc_strms c) (sf_sid fr) else None) as [s|] eqn:Found.
+  - assert (SS : strms_search (sc_strms c) (sf_sid fr) = Some s) by (destruct (_ <=? _); [exact Found | discriminate]).
+    destruct (strms_search_In _ _ _ SS) as [Is Es]. destruct (IDS s Is). lia.
+  - destruct (in_ring c (sf_sid fr)) eqn:IR.
+    { destruct (in_ring_In _ dec_field enc_set_max _ _ IR) as (e & Ie & Ee). specialize (RING e Ie). lia. }
+    destruct (sf_sid fr <? sc_lastID c) eqn:LT; [lia|].
+    exfalso. set (s := set_orig_started (new_stream (sf_sid fr) (sc_initWin c)) KData (sc_now c)) in *.
+    unfold handle_frame in Hd'.
+    replace (verify_state s fr) with (Some (EGoAway c_ProtocolError)) in Hd' by (unfold verify_state; cbn [s set_orig_started new_stream st_state]; rewrite K; reflexivity).
+    cbn in Hd'. discriminate.
+Qed.
+
 End Own.
